@@ -1424,9 +1424,15 @@ fn exec(p: &SProg, t: usize, o: &Objs, rx: &mut Option<loom::sync::mpsc::Receive
             }
             SOp::Fail(id) => panic!("{}{}", USER_PANIC_PREFIX, id),
             SOp::FailInCell(id) => {
-                // a private cell: the access itself cannot race, the panic strikes while the write guard is alive
+                // a private cell: the access itself cannot race, the panic strikes while the write (even ids) or read
+                // (odd ids) guard is alive, and the cell's owner uses it once more while unwinding
                 let c = loom::cell::UnsafeCell::new(0u64);
-                c.with_mut(|_| panic!("{}{}", USER_PANIC_PREFIX, id))
+                let _t = TouchOnUnwind(&c);
+                if id % 2 == 0 {
+                    c.with_mut(|_| panic!("{}{}", USER_PANIC_PREFIX, id))
+                } else {
+                    c.with(|_| panic!("{}{}", USER_PANIC_PREFIX, id))
+                }
             }
             SOp::FailInAtomicMut(id) => {
                 let mut a = loom::sync::atomic::AtomicUsize::new(0);
